@@ -370,6 +370,14 @@ func c10Body(rec *c10rec, seed uint64) func(t *rapid.T) {
 					rec.register(b, at, c10None, 0)
 				},
 				"ctx": func(at *rapid.T) { rec.ctx(b, at, "in action") },
+				"regskip": func(at *rapid.T) {
+					// registered by an action that then turns out not to apply: still a cleanup of this invocation
+					// (runs once, after the property returned, in LIFO order with the others)
+					rec.register(b, at, c10None, 0)
+					if rapid.Bool().Draw(at, "skip") {
+						at.Skip("action skipped after registering a cleanup")
+					}
+				},
 			})
 		}
 		if mix(uint64(x), salt)%den == 0 {
